@@ -86,6 +86,15 @@ claim("C06", "other",
       "symbolic execution with symbolic integer labels (z3 LIA+NRA) and LAPACK contract stubs",
       "DESIGN.md section 1, C06")
 
+claim("C16", "other",
+      "BasisSHO.op_mat executed with symbolic omega>0 and origin x0 and exact algebraic sqrt(n): commutator, ladder relations, every product symbol vs the written-order "
+      "matrix product, powers vs k-fold products away from the truncation edge, shifted origin; spin/electron/multi-electron/HOPS matrices with symbolic factors; "
+      "HolsteinModel (schemes 1-4, open/periodic), SpinBosonModel, TI1DModel term lists evaluated densely with symbolic couplings against the documentation formula.",
+      "BasisSineDVR and the LAPACK-defined DVR rotation are NOT covered (transcendental integrals / eigh); odd general powers carry a float constant and are only tied "
+      "numerically; Holstein frequencies concrete.",
+      "symbolic execution with exact algebraic square-root atoms + z3 (QF_NRA)",
+      "DESIGN.md section 1, C16")
+
 for pid in ["C%02d" % i for i in range(1, 21)]:
     if pid not in CHECKS:
         NA[pid] = "check not built yet (build in progress; see DESIGN.md)"
